@@ -33,7 +33,8 @@ def flag (j : Json) (k : String) : Bool :=
 * `lex`     `{a}` → the split name and the class flags
 * `match`   `{v,expr}` → `{"r": "match"|"nomatch"|"M"|"I", "tokens":[..]}`
 * `latest`  `{names:[..]}` → `{"idx": n | null}` or `{"err": ..}`
-* `stacks`  `{stacks:[[..]..],expr}` → `{"latest": [stack, version] | null | {"err"}, "matches": [[stack, version]..] | {"err"}}` -/
+* `stacks` / `stacksboth` (`{"cache":..,"db":..}`)  `{stacks:[[..]..],expr,minver?,db?}` → `{"latest", "latest_min", "preferred": [stack, version] | null | {"err"},
+             "matches": [[stack, version]..] | {"err"}}`; `db`: the database branch (each stack in string order) -/
 def handle : Handler := fun j => do
   let op ← (← j.getObjVal? "op").getStr?
   let pinned := flag j "pinned"
@@ -71,18 +72,27 @@ def handle : Handler := fun j => do
     | .error e => pure (Json.mkObj [("err", e.name)])
     | .ok none => pure (Json.mkObj [("idx", Json.null)])
     | .ok (some i) => pure (Json.mkObj [("idx", Json.num i)])
-  | "stacks" =>
-    let stacks ← (← jarr j "stacks").mapM fun st => do
+  | "stacks" | "stacksboth" =>
+    let raw ← (← jarr j "stacks").mapM fun st => do
       (← st.getArr?).toList.mapM fun v => do pure (Str.ofString (← v.getStr?))
     let e ← jstr j "expr"
-    let lat := match latestAcross stacks with
+    let minver := match jstrOpt j "minver" with
+      | .ok (some mv) => if mv.isEmpty then none else some mv
+      | _ => none
+    let one (r : Except Err (Option (Nat × Str))) : Json := match r with
       | .error er => Json.mkObj [("err", er.name)]
       | .ok none => Json.null
       | .ok (some (i, v)) => Json.arr #[Json.num i, ofStr v]
-    let mat := match matchesAcross e stacks with
-      | .error er => Json.mkObj [("err", er.name)]
-      | .ok l => Json.arr (l.map fun (i, v) => Json.arr #[Json.num i, ofStr v]).toArray
-    pure (Json.mkObj [("latest", lat), ("matches", mat)])
+    let answer (stacks : List (List Str)) : Json :=
+      let mat := match matchesAcross e stacks with
+        | .error er => Json.mkObj [("err", er.name)]
+        | .ok l => Json.arr (l.map fun (i, v) => Json.arr #[Json.num i, ofStr v]).toArray
+      Json.mkObj [("latest", one (latestAcross stacks)), ("latest_min", one (latestAcrossMin minver stacks)),
+        ("matches", mat), ("preferred", one (preferredByExpr e stacks))]
+    if op == "stacksboth" then
+      pure (Json.mkObj [("cache", answer raw), ("db", answer (raw.map dbOrder))])
+    else
+      pure (answer (if flag j "db" then raw.map dbOrder else raw))
   | _ => throw s!"c10: unknown op {op}"
 
 end EupsModel.Drv.C10
